@@ -20,7 +20,8 @@ ASSUMPTIONS = ["LifecycleObserver events are emitted in real execution order (on
                "g++-12 -O1 build of the working tree with harness-side shims"]
 FLOORS = {"deps_checked": {"quick": 3000, "thorough": 40000}, "cyclic_rejected": {"quick": 40, "thorough": 400},
           "node_evals_ordered": {"quick": 20000, "thorough": 200000}, "child_brackets": {"quick": 500, "thorough": 5000},
-          "deps_through_reference": {"quick": 100, "thorough": 1500}, "structural_case_node_evals": {"quick": 3000, "thorough": 40000}}
+          "deps_through_reference": {"quick": 100, "thorough": 1500}, "mesh_resumes_after_pause": {"quick": 200, "thorough": 3000},
+          "mesh_captured_throws": {"quick": 30, "thorough": 400}, "structural_case_node_evals": {"quick": 3000, "thorough": 40000}}
 BATCH = 25
 
 
@@ -94,6 +95,76 @@ def make_cyclic(rng, name, kind):
     return c
 
 
+def gen_mesh_case(rng, name):
+    """mesh_: per-key instances that read each other's results; an instance PAUSES at its mesh reference until the referenced
+    instance has been evaluated and is then RESUMED in the same cycle. Half of the cases wrap the instance body in try_except
+    with a node that throws in some cycles (a cycle abandoned by a captured error, followed by cycles that pause)."""
+    from .prog import Case, S
+    end = rng.choice([16, 24, 36])
+    c = Case(name, 0, end)
+    keys = list(range(1, rng.choice([3, 4, 6]) + 1))
+    vals, links = {}, {}
+    for k in keys:
+        vals.setdefault(0 if rng.random() < 0.7 else rng.randrange(1, 4), []).append(f"[{k}]={k * 10}")
+    for t in sorted(rng.sample(range(1, end), min(end - 1, rng.choice([5, 9, 14])))):
+        vals.setdefault(t, []).append(f"[{rng.choice(keys)}]={rng.randint(1, 99)}")
+    for k in keys[1:]:
+        if rng.random() < 0.7:
+            links.setdefault(rng.choice([0, 0, 1, 2]), []).append(f"[{k}]={rng.randrange(1, k)}")
+    for t in sorted(rng.sample(range(2, end), min(end - 2, rng.choice([2, 4, 7])))):
+        k = rng.choice(keys[1:])
+        links.setdefault(t, []).append(f"[{k}]={rng.randrange(1, k)}" if rng.random() < 0.85 else f"x[{k}]")
+    c.cscripts[1] = [f"{t}|" + ",".join(ops) for t, ops in sorted(vals.items())]
+    c.cscripts[2] = [f"{t}|" + ",".join(dict.fromkeys(ops)) for t, ops in sorted(links.items())]
+    inner = [S("e", "pass", "p0", uid=100), S("th", "thrower", "e", uid=101), S("a", "acc", "th", uid=102), S("l", "pass", "p1", uid=103),
+             S("l2", "pass", "l", uid=104), S("dep", "meshref", "l2"), S("g", "gate", "a", "dep", uid=105), S("h", "pass", "g", uid=106)]
+    if rng.random() < 0.5:
+        c.graphs["sub0"] = inner + [S("", "RET", "h")]
+        c.graphs["fn0"] = [S("r", "try", "p0", "p1", sid=0), S("o", "tryout", "r", uid=110), S("", "tryerr", "r", uid=111), S("", "RET", "o")]
+        c.faults = [(101, "eval", o) for o in sorted(rng.sample(range(2, 30), rng.choice([1, 2, 4])))]
+        c.meta["mesh_try"] = 1
+    else:
+        c.graphs["fn0"] = inner + [S("", "RET", "h")]
+    c.graphs["main"] = [S("d", "csrc", shape="tsd", uid=1), S("k", "csrc", shape="tsd", uid=2), S("m", "mesh", "d", "k", fn="fn2:0"),
+                        S("", "cmirror", "m", uid=11)]
+    c.meta["mesh"] = 1
+    return c
+
+
+def check_mesh(case, tr, res):
+    run = tr.runs[0]
+    if run.error and "failed_to_settle" in run.error:
+        # the mesh gave up re-ranking its instances after a link change ("failed to settle within the cycle"): an explicit
+        # error of an operator none of the properties describes - counted, not judged
+        res.counters = {"mesh_runs_failed_to_settle": 1}
+        return res
+    if run.error:
+        res.violations.append(Violation(f"run failed: {run.error[:300]}"))
+        return res
+    seen, entered, cyc = {}, {}, None
+    resumes = throws = 0
+    for seq, kind, tk in run.events:
+        if kind == "C<" and tk[0] == "0":
+            cyc = int(tk[1])
+        elif kind == "E<":
+            key = (int(tk[0]), int(tk[1]), cyc)
+            entered[key] = entered.get(key, 0) + 1
+            if entered[key] == 2:
+                resumes += 1
+        elif kind == "u.throw":
+            throws += 1
+    for ue in run.uevals():
+        key = (ue.uid, ue.gid, ue.idx, ue.t)
+        seen[key] = seen.get(key, 0) + 1
+    dup = sorted(k for k, n in seen.items() if n > 1)
+    if dup:
+        res.violations.append(Violation(f"user code ran more than once in one cycle: (uid, graph, node, t) = {dup[:5]} "
+                                        f"({len(dup)} node evaluations repeated; the instance was resumed {resumes} time(s) in the run)"))
+    res.counters = {"mesh_user_evals_checked": len(seen), "mesh_resumes_after_pause": resumes, "mesh_captured_throws": throws}
+    res.nontrivial = resumes >= 1
+    return res
+
+
 def generate(rng, tier, seed):
     n = 400 if tier == "quick" else 6000
     cases = []
@@ -115,6 +186,8 @@ def generate(rng, tier, seed):
              gen_case11(rng, nm, k) if r == 2 else gen_case12(rng, nm, k) if r == 3 else gen_coll_ref(rng, nm))
         c.meta["structural"] = 1
         cases.append(c)
+    for k in range(n // 5):
+        cases.append(gen_mesh_case(rng, f"c01_{seed}_m{k}"))
     kinds = ["delayed", "rank", "rank2", "control"]
     for k in range(n // 5):
         cases.append(make_cyclic(rng, f"c01_{seed}_cyc{k}", kinds[k % len(kinds)]))
@@ -219,6 +292,8 @@ def check(case, tr):
     if case.meta.get("kind") == "control":
         res.counters["feedback_cut_built"] = 1
     check_static_edges(tr, res)
+    if case.meta.get("mesh"):
+        return check_mesh(case, tr, res)
     run = tr.runs[0]
     if run.error:
         res.violations.append(Violation(f"run failed: {run.error}"))
